@@ -1,6 +1,9 @@
-"""C18 — see DESIGN.md section 5 "C18". Theorems: coq/Properties/C18.v (over Mseq); tie: T1 seq-diff (checks/seqcommon.py)."""
+"""C18 — see DESIGN.md section 5 "C18". Theorems: coq/Properties/C18.v (over Mseq); ties: T1 seq-diff through the real ipc receiver
+(checks/seqcommon.py) and T4-cli (lib/clitie.py: the real ldlm-server and ldlm-lock binaries, list / unlock by key / by name)."""
 from checks import seqcommon
+from lib import clitie
 
 
 def run(ctx):
     seqcommon.run_seq_only(ctx, "C18")
+    clitie.run_property(ctx)
